@@ -10,7 +10,9 @@ FUSED = ['Cc1cccc2ccccc12', 'c1ccc2ccccc2c1', 'c1ccc2cc3ccccc3cc2c1', 'Cc1ccc2cc
 # physisorbed species: a zero-order ('~') or dative bond to the surface atom, written metal-last and metal-first
 PHYS = ['O=C(=O)~[Pt]', '[Pt]~C(=O)=O', 'O~[Pt]', '[Pt]~O', 'CO~[Pt]', 'C(=O)(O)~[Pt]', 'O=C(=O)->[Pt]', '[Pt]<-C(=O)=O', 'OC(~[Pt])=O']
 EXTRA = {'BensonGA': ['CCCC/C=C\\CCCCCC', 'CC1CCCCC1', 'C1(CCCCC1)C', 'Cc1ccccc1C', 'C1=CC=CCC1', 'C1CC=CC=C1', 'CC(C)CC(C)C', 'C/C=C\\C', 'CC=CC',
-                      'CC(C)=C(C)C', 'c1ccoc1', 'c1ccncc1', 'C=C1C=CC=CC1=C', 'CC(C)(C)CC(C)(C)C', 'OC(=O)c1ccccc1'] + FUSED,
+                      'CC(C)=C(C)C', 'c1ccoc1', 'c1ccncc1', 'C=C1C=CC=CC1=C', 'CC(C)(C)CC(C)(C)C', 'OC(=O)c1ccccc1',
+                      # the same group type reached natively and through a remap, in either atom order (radical and closed-shell methyls)
+                      'C[C]=CC', 'C[C]=C(C)C', 'CC(=O)CC', 'COCC', 'C[CH]C=CC'] + FUSED,
          'PPY': ['CC1CCCCC1', 'Cc1ccccc1C', 'C1=CC=CCC1', 'CCCC/C=C\\CCCCCC', 'c1ccncc1', 'c1ccsc1', 'Cc1cccs1', 'c1ccc2sccc2c1'] + FUSED[:3],
          'SalciccioliGA2012': ['C([Pt])C[Pt]', 'C([Pt])([Pt])C([Pt])([Pt])C', '[Pt]C([Pt])C([Pt])([Pt])C=O', 'OC([Pt])C([Pt])O'],
          'GRWSurface2018': ['[Pt]C([Pt])C([Pt])([Pt])C=O', 'C([Pt])([Pt])C([Pt])C[Pt]', 'OC([Pt])([Pt])C([Pt])([Pt])C([Pt])([Pt])C([Pt])([Pt])'] + PHYS,
